@@ -9,6 +9,9 @@ for f in MANIFEST.json lean/SwimVerif.lean lean/SwimVerif/Registry.lean lean/Mai
 done
 # evidence files are rewritten by every run: keep ours
 for f in $(git diff --name-only --diff-filter=U | grep '^evidence/' || true); do git checkout --ours -- "$f"; git add "$f"; done
+# generated tables are regenerated from /repo
+for f in $(git diff --name-only --diff-filter=U | grep '^lean/SwimVerif/Generated/' || true); do git checkout --theirs -- "$f"; git add "$f"; done
+python3 tools/extract.py >/dev/null 2>&1 || true
 if git diff --name-only --diff-filter=U | grep -q .; then echo "UNRESOLVED (fix, then re-run genreg/mkmanifest and commit):"; git diff --name-only --diff-filter=U; exit 1; fi
 python3 tools/genreg.py >/dev/null
 python3 tools/mkmanifest.py
